@@ -9,6 +9,10 @@ CLAIMS = {
    text="Deductive proof on the real status.SetApprove/SetCompare and missing-approve check/readFile (VCs generated from go/ssa, discharged by z3/cvc5): an inductive invariant linking the two-slot status file to the ghost observation history is preserved by every operation, and under it check prints the device iff the latest conclusive observation does not establish current code (six-file comparison, bz2 aware). Holds for all histories because the invariant is inductive; one known finding (failed approve erases the successful one) is excluded by name.",
    note="Trusted: file system/clock/bzip2/json specs in /verif/specs (Read/write of the status file as ghost map; strictly increasing clock is the property's own assumption); WalkDir enumeration of devices in missing-approve Main and the arguments computed by doapprove.Main are not covered here.",
    tech='contract-based deductive verification: ghost observation history + inductive invariant, WP over go/ssa, SMT'),
+ 'C06': dict(category='proof', design_ref='DESIGN.md §4 C06',
+   text="Deductive proof of the interlock typestate on the real code, once per device type: ghost flags nameChecked/markerMissing/haActive are cleared at entry of device.ApproveOrCompare; (*state).applyCommands (the only path to change, save or commit) requires 'hostname verified (all but NSX), marker not missing, HA member active (PAN-OS)'; the per-device checkDeviceName functions are proved to return normally only if the reported name equals the expected one; cisco/linux checkBanner and panos checkUnmanaged are proved to record a missing marker exactly under the property's condition and LoadDevice/GetChanges to carry it to approve's gate; panos checkHA is proved to return true only for disabled HA or the active member. One genuine defect was repaired (fix: b7526a1), one is a known finding (Linux GetErrUnmanaged).",
+   note="Trusted: regexp match abstracted as reMatch(re, s); the reported hostname is defined as the trimmed output of the hostname command (ghost lastOutput set by GetCmdOutput/IssueCmd); library XML decoding is havoc; the diagnostic text and exit status on refusal are covered under C09.",
+   tech='contract-based deductive verification: ghost typestate, functional postconditions on name/marker/HA checks, per-device-type specialisation'),
  'C11': dict(category='proof', design_ref='DESIGN.md §4 C11',
    text="Deductive proof over all device answers: a ghost flag isCompareRun is assigned from the argument at entry of device.ApproveOrCompare; every send primitive (console.Conn.Send/IssueCmd/SendCmd/GetCmdOutput, panos httpPrefixGetLog, nsx sendRequest, http PostForm, linux putScp) carries the precondition 'not a compare run, or the command is in the fixed read-only set', which is discharged at every call site of every function on the load, compare and apply paths (approve/compare verified once per device type); scans prove the raw primitives are used only inside those wrappers; site assertions prove that drc -C and the do-approve verb select the path.",
    note="Trusted: the read-only command list in pkg/console/zz_contracts_verif.go is the specification; the PAN-OS keygen URL built by net/url is not inspected (scan only shows httpGet is reached from getAPIKey and httpPrefixGetLog); library calls are assumed not to talk to the device.",
